@@ -50,13 +50,14 @@ vt_proof! { unwind = 5; fn c08_version_chain_walk() {
     let mut rec = [0u8; 18]; h0.write_to(&mut rec); rec[17] = 0xA0;
     static D1: [u8; 1] = [0xA1]; static D2: [u8; 1] = [0xA2];
     let p1 = h0.prev_version; let p2 = h1.prev_version;
+    // an acyclic chain: distinct undo slots, the oldest version points to no further version we hold
+    kani::assume(p1 != p2 && h2.prev_version != p1 && h2.prev_version != p2);
     let reader = VersionChainReader::new(&rec, read_ts);
     let r: Result<Option<turdb::mvcc::VisibleVersion>, ()> = reader.find_visible_version(|page, off| {
         let ptr = RecordHeader::encode_ptr(page, off);
         if ptr == (p1 & 0xFFFF_FFFF_FFFF_FFFF) && RecordHeader::decode_ptr(p1) == (page, off) { Ok(Some((h1, &D1[..]))) }
         else if RecordHeader::decode_ptr(p2) == (page, off) { Ok(Some((h2, &D2[..]))) } else { Ok(None) }
     });
-    kani::assume(p1 != p2); // distinct undo slots
     // oracle: newest-to-oldest, the first version whose visibility is not Invisible decides
     let vis = |h: &RecordHeader| h.is_visible_to(read_ts);
     let want: Option<u8> = match vis(&h0) {
